@@ -1949,6 +1949,20 @@ func (s *xState) roundQuotients() {
 			if !has(ge1) && lpProveNonNeg(q.Scale(d).Add(linConst(-1)), s.facts) {
 				s.facts = append(s.facts, Fact{E: ge1})
 			}
+			// a quotient known to be at least 1 whose multiple is bounded: d*q <= d*(k+1) - 1 gives q <= k (k = 1, 2, 3);
+			// this is `len &= n-1` after `n <= len < 2n` (the quotient is exactly 1)
+			if has(ge1) || lpProveNonNeg(ge1, s.facts) {
+				for k := int64(1); k <= 3; k++ {
+					lek := linConst(k).Sub(q)
+					if has(lek) {
+						break
+					}
+					if lpProveNonNeg(linConst(d*(k+1)-1).Sub(q.Scale(d)), s.facts) {
+						s.facts = append(s.facts, Fact{E: lek})
+						break
+					}
+				}
+			}
 		}
 	}
 }
